@@ -25,34 +25,35 @@ import (
 )
 
 type c07Scenario struct {
-	Name       string  `json:"name"`
-	Full       bool    `json:"full_handshake"` // real Handshake() incl. the built-in poll goroutine
-	QType      uint16  `json:"qtype"`
-	Up         string  `json:"up_codec"`
-	Down       string  `json:"down_codec"`
-	UpFrag     uint32  `json:"up_frag"`
-	DownFrag   uint32  `json:"down_frag"`
-	StartC2S   uint16  `json:"start_seq_c2s"`
-	StartS2C   uint16  `json:"start_seq_s2c"`
-	BytesC2S   int64   `json:"bytes_c2s"`
-	BytesS2C   int64   `json:"bytes_s2c"`
-	Script     string  `json:"script"` // transparent | random | everyk | wraploss | bursts | dupstorm | replay
-	PLostQ     float64 `json:"p_query_lost"`
-	PLostA     float64 `json:"p_answer_lost"`
-	PDup       float64 `json:"p_dup"`
-	PReplay    float64 `json:"p_replay"`
-	MaxBurst   int     `json:"max_loss_burst"` // consecutive losses allowed by the script
-	K          int     `json:"k"`
-	LagMin     int     `json:"lag_min"`
-	LagMax     int     `json:"lag_max"`
-	WriteMode  string  `json:"write_sizes"`
-	HitDir     string  `json:"hit_direction,omitempty"`      // script "exact": c2s | s2c
-	HitSeq     uint16  `json:"hit_seq,omitempty"`            // the packet whose exchange gets the fate
-	HitFate    string  `json:"hit_fate,omitempty"`           // query-lost | answer-lost | query-dup
-	HitTimes   int     `json:"hit_times,omitempty"`          // how many consecutive exchanges of that packet are hit (<=3)
-	DupCopies  int     `json:"dup_copies_at_once,omitempty"` // >1: the copies of a duplicated query reach the server at the same time
-	ZeroWrites bool    `json:"zero_length_writes,omitempty"` // every 13th Write of either side is preceded by a Write of no bytes
-	Seed       int64   `json:"seed"`
+	Name        string  `json:"name"`
+	Full        bool    `json:"full_handshake"` // real Handshake() incl. the built-in poll goroutine
+	QType       uint16  `json:"qtype"`
+	Up          string  `json:"up_codec"`
+	Down        string  `json:"down_codec"`
+	UpFrag      uint32  `json:"up_frag"`
+	DownFrag    uint32  `json:"down_frag"`
+	StartC2S    uint16  `json:"start_seq_c2s"`
+	StartS2C    uint16  `json:"start_seq_s2c"`
+	BytesC2S    int64   `json:"bytes_c2s"`
+	BytesS2C    int64   `json:"bytes_s2c"`
+	Script      string  `json:"script"` // transparent | random | everyk | wraploss | bursts | dupstorm | replay
+	PLostQ      float64 `json:"p_query_lost"`
+	PLostA      float64 `json:"p_answer_lost"`
+	PDup        float64 `json:"p_dup"`
+	PReplay     float64 `json:"p_replay"`
+	MaxBurst    int     `json:"max_loss_burst"` // consecutive losses allowed by the script
+	K           int     `json:"k"`
+	LagMin      int     `json:"lag_min"`
+	LagMax      int     `json:"lag_max"`
+	WriteMode   string  `json:"write_sizes"`
+	HitDir      string  `json:"hit_direction,omitempty"`      // script "exact": c2s | s2c
+	HitSeq      uint16  `json:"hit_seq,omitempty"`            // the packet whose exchange gets the fate
+	HitFate     string  `json:"hit_fate,omitempty"`           // query-lost | answer-lost | query-dup
+	HitTimes    int     `json:"hit_times,omitempty"`          // how many consecutive exchanges of that packet are hit (<=3)
+	DupCopies   int     `json:"dup_copies_at_once,omitempty"` // >1: the copies of a duplicated query reach the server at the same time
+	ReaderPause int     `json:"reader_pause_ms,omitempty"`    // both readers lag: they sleep that long after every Read and take what has piled up in one gulp (64 KiB buffer)
+	ZeroWrites  bool    `json:"zero_length_writes,omitempty"` // every 13th Write of either side is preceded by a Write of no bytes
+	Seed        int64   `json:"seed"`
 }
 
 func c07Codec(name string) enc.Encoder {
@@ -473,8 +474,12 @@ func c07Run(rec *vcommon.Rec, sc *c07Scenario) {
 			if cur >= atomic.LoadInt64(&d.total) {
 				return
 			}
+			if sc.ReaderPause > 0 {
+				time.Sleep(time.Duration(sc.ReaderPause) * time.Millisecond)
+			}
 			n, err := r.Read(buf)
 			if n > 0 {
+				rec.StatMax("largest_single_read_bytes", int64(n))
 				if bad := vcommon.CheckKeyed(d.key, cur, buf[:n]); bad >= 0 {
 					kind := vcommon.Classify(d.key, cur+int64(bad), buf[bad:n], []uint64{c2s.key, s2c.key})
 					cls := kind
@@ -713,6 +718,10 @@ func c07Scenarios(rec *vcommon.Rec) []*c07Scenario {
 	add(c07Scenario{Script: "random", PLostQ: 0.03, PLostA: 0.03, PDup: 0.03, Up: "Base128", Down: "Base64", QType: uint16(util.QueryTypeTxt), UpFrag: 100, DownFrag: 200, BytesC2S: 400000, BytesS2C: 400000, WriteMode: "mixed"})
 	add(c07Scenario{Script: "random", PLostQ: 0.03, PLostA: 0.03, PDup: 0.03, Up: "Base64u", Down: "Raw", QType: uint16(util.QueryTypeNull), UpFrag: 90, DownFrag: 1000, BytesC2S: 300000, BytesS2C: 1500000, WriteMode: "mixed"})
 	add(c07Scenario{Script: "random", Full: true, PLostQ: 0.02, PLostA: 0.02, PDup: 0.02, BytesC2S: 300000, BytesS2C: 600000, WriteMode: "mixed"})
+	// lagging readers: the application reads every few milliseconds and takes everything that has piled up meanwhile
+	add(c07Scenario{Script: "transparent", Full: true, BytesC2S: 6 << 20, BytesS2C: 6 << 20, WriteMode: "mixed", ReaderPause: 5})
+	add(c07Scenario{Script: "transparent", Up: "Base128", Down: "Raw", QType: uint16(util.QueryTypeNull), UpFrag: 190, DownFrag: 1000, BytesC2S: 6 << 20, BytesS2C: 12 << 20, WriteMode: "mixed", ReaderPause: 2})
+	add(c07Scenario{Script: "random", PLostQ: 0.01, PLostA: 0.01, PDup: 0.02, Up: "Base128", Down: "Raw", QType: uint16(util.QueryTypeNull), UpFrag: 190, DownFrag: 1000, BytesC2S: 3 << 20, BytesS2C: 6 << 20, WriteMode: "mixed", ReaderPause: 3})
 	add(c07Scenario{Script: "transparent", Full: true, UpFrag: 5, DownFrag: 5, BytesC2S: 20000 * 5, BytesS2C: 20000 * 5})
 	// 6b. a long total outage (longer than any retry ladder) and then recovery: with the real handshake and the
 	// client's own poll loop; Write errors may surface during the outage, but the connection must survive it and
